@@ -1,15 +1,16 @@
 //@ tu: libxcm/core/attr_path.c
 //@ enforce: attr_pcomp_parse_key
 //@ loops: attrpath.loops
-//@ pre-unwind: strlen.0:257 ut_strdup.0:258
+//@ pre-unwind: strlen.0:257
+//@ defs: -DXV_AP_STRDUP_GHOST
 //@ props: C10 C19
 //@ expect: postcondition>=6 canary=3
 #include "_unit.h"
 void harness(void)
 {
     xv_ghost_havoc(); AP_GHOST_HAVOC();
-    const char *path_str; struct attr_pcomp **comp;
-    int rv = attr_pcomp_parse_key(path_str, comp);
+    const char *path_str; struct attr_pcomp *slot = NULL;
+    int rv = attr_pcomp_parse_key(path_str, &slot);
     if (rv == -1) XV_CANARY("empty key");
     if (rv == 1) XV_CANARY("one-character key");
     if (rv == ATTR_PATH_NAME_MAX) XV_CANARY("255-character key");
